@@ -894,9 +894,11 @@ def plan_c16(run_seed):
             if calls:
                 c_ = t.choice(calls)
                 rn = e["prog"]["reg"][0] if e["prog"].get("reg") else "q"
-                if len(c_["args"]) >= 2 and t.chance(0.35):
-                    c_["args"][0], c_["args"][1] = c_["args"][1], c_["args"][0]  # swapped arguments
-                c_["args"][t.randrange(len(c_["args"]))] = t.choice([["num", 1.5], ["num", 2.0], ["num", 1], ["id", rn], ["item", rn, 0], ["num", -1], ["raw", "1.0e999"], ["raw", "-2.0E+400"]])
+                if len(c_["args"]) >= 2 and t.chance(0.4):
+                    i_ = t.randrange(len(c_["args"]) - 1)
+                    c_["args"][i_], c_["args"][i_ + 1] = c_["args"][i_ + 1], c_["args"][i_]  # swapped arguments
+                else:
+                  c_["args"][t.randrange(len(c_["args"]))] = t.choice([["num", 1.5], ["num", 2.0], ["num", 1], ["id", rn], ["item", rn, 0], ["num", -1], ["raw", "1.0e999"], ["raw", "-2.0E+400"]])
                 e["exec"] = False
         if t.chance(0.12):
             # unusual but lexically legal: a negative loop or subcircuit count
